@@ -49,6 +49,8 @@ def programs(seed, tier):
                 end = rng.choice([
                     [{"op": "to_addr", "h": "h", "nh": "t"}, {"op": "stop", "h": "t"}, {"op": "join", "h": "h"}, {"op": "join", "h": "h"}, {"op": "call", "h": "t"}],
                     [{"op": "consume", "h": "h"}],
+                    [{"op": "consume_sync", "h": "h"}],
+                    [{"op": "to_addr", "h": "h", "nh": "t"}, {"op": "consume_sync", "h": "h"}, {"op": "call", "h": "t"}],
                     [{"op": "to_addr", "h": "h", "nh": "t"}, {"op": "halt", "h": "t"}, {"op": "join", "h": "h"}],
                     [{"op": "detach", "h": "h", "nh": "t"}, {"op": "call", "h": "t"}, {"op": "halt", "h": "t"}],
                 ])
